@@ -151,4 +151,13 @@ theorem copy_final (c : Cfg) (hv : c.Valid) (hG : 0 < c.G) (tail pk : List Nat) 
   · intro a ha
     rw [hget, copy_result c hG _ hbytes, if_neg ha]
 
+/-- the launch `Driver.EnqueueMemCopyD2D(dst, src, num)` creates: `⌈num/4⌉` work-items, `N = num` -/
+def d2dCfg (co ka pa src dst num : Nat) : Cfg := ⟨co, ka, pa, src, dst, num, (num + 3) / 4⟩
+
+theorem d2dCfg_K (co ka pa src dst num : Nat) (h : 0 < num) : (d2dCfg co ka pa src dst num).K = (num + 3) / 4 := by
+  unfold Cfg.K d2dCfg
+  simp only
+  omega
+
+
 end C01.Emu.Copy
